@@ -169,7 +169,9 @@ BlockViol(d, b, tree, bp, who, ln) ==
 (* checks that need the tree of the block (independent parse only) *)
 TreeViol(bt, d, ln) ==
     (IF Unreachable(bt) # {} THEN
-        <<[l |-> ln, prop |-> "C04", what |-> "block table entry that no stored item refers to (table, index)",
+        \* (an entry nothing of this block refers to: either an excluded value was stored, C04, or the table was not empty
+        \*  when the block was started, C11 "nothing of the previous block's tables is visible in the next one")
+        <<[l |-> ln, prop |-> "C04,C11", what |-> "block table entry that no stored item refers to (table, index)",
            got |-> Unreachable(bt)]>> ELSE <<>>)
     \o (IF DupTables(bt) # {} THEN
         <<[l |-> ln, prop |-> "C11", what |-> "block table with two equal entries", got |-> DupTables(bt)]>> ELSE <<>>)
